@@ -46,6 +46,20 @@ CHECKS = {
              "Exact ties may resolve either way. Diagram drawing is stubbed during the walk (real in the hand-over).",
         technique="TLC model checking of Pick.tla + replay of every event sequence on the real dialog and mpe_from_plot",
     ),
+    "C06": dict(
+        text="Fdd.tla: TLC enumerates singular-value tables (exact ratio comparison by cross-multiplication), selected "
+             "frequencies on a quarter-line lattice and band half-widths >= one spacing, and computes the set of "
+             "admissible answers (a maximiser over some reading of the band between the narrowest and widest one); checks "
+             "PickInBand, PickIsArgmax, SharpIsUnique, SomeAnswer, ValuesNonIncreasing; every case is handed to FDD_mpe, "
+             "FDD.mpe, FDD_MS.mpe (returned line admissible, shape = normalised stored first vector of that line); "
+             "permuted diagonal spectral matrices through SD_svalsvec; sinusoid records with Gaussian-integer amplitudes "
+             "through FDD / FSDD (first stage) / FDD_MS setups (line, conjugation convention, normalisation, faithful "
+             "decomposition at every line).",
+        ref="DESIGN.md §4.7, §5 C06",
+        note="Trusted: TLC, numpy MAC. A line within one spacing of a band limit may or may not count as in the band. "
+             "One listed known finding (Nyquist line never a candidate when the band reaches the end of the grid).",
+        technique="TLC model checking of Fdd.tla (Pick, Decompose) + replay through FDD_mpe / class mpe / SD_svalsvec and setups",
+    ),
     "C09": dict(
         text="Poles.tla, action HardCriteria: TLC enumerates unfiltered pole tables over a classified cell alphabet "
              "(conjugate present/absent, damping <=0 / ok / >= max, catalogue shapes on either side of the MPC / MPD "
